@@ -348,7 +348,8 @@ class Ref:
         self.seg = {"where": [], "having": [], "group": None, "order": [], "limit": None, "offset": None}
 
 
-BENIGN = {"mut_ew", "mut_over", "filter", "select", "rename", "arrange", "group_by", "group_by_add", "ungroup"}
+BENIGN = {"mut_ew", "mut_over", "filter", "select", "rename", "arrange", "group_by", "group_by_add", "ungroup", "rename_swap", "rename_swap_rev",
+          "rename_chain", "rename_chain_rev"}  # fmt: skip
 
 
 class Action:
@@ -395,6 +396,8 @@ class Sim:
             return _first_visible(r, lambda c: c.uid not in r.grouping) is not None
         if kind in ("ungroup",):
             return bool(r.grouping)
+        if kind.startswith(("rename_swap", "rename_chain")):
+            return len(r.visible) >= 2
         if kind in ("slice", "slice0", "slice2", "slice3") or kind.startswith(("join", "union")):
             return not r.grouping  # the verbs reject grouped tables (C14)
         return bool(r.visible)
@@ -485,6 +488,24 @@ class Sim:
             def effect(ref, _u=a.uid, _new=new):
                 c = ref.cols[_u]
                 ref.cols[_u] = RCol(c.uid, _new, c.ft, c.const, None)
+
+            return node, effect, (lambda ref: None)
+        if kind in ("rename_swap", "rename_swap_rev", "rename_chain", "rename_chain_rev"):
+            # renames whose new names are old names of other renamed columns: the mapping is simultaneous (a swap, a chain
+            # a -> b, b -> fresh), whatever the insertion order of the map
+            u1, u2 = r.visible[0], r.visible[1]
+            n1, n2 = r.cols[u1].name, r.cols[u2].name
+            pairs = [(n1, n2), (n2, n1)] if kind.startswith("rename_swap") else [(n1, n2), (n2, w.fresh("r"))]
+            if kind.endswith("_rev"):
+                pairs.reverse()
+            nm = dict(pairs)
+            node = w.obj("Rename", child=child, name_map=nm)
+
+            def effect(ref, _nm=dict(nm)):
+                for u_ in list(ref.visible):
+                    c = ref.cols[u_]
+                    if c.name in _nm:
+                        ref.cols[u_] = RCol(c.uid, _nm[c.name], c.ft, c.const, None)
 
             return node, effect, (lambda ref: None)
         if kind == "group_by":
@@ -656,7 +677,7 @@ class Sim:
 
 
 UNARY = ("mut_ew", "mut_over", "mut_win", "mut_win_free", "mut_agg", "mut_const", "filter", "arrange", "select", "rename", "group_by", "group_by_add",
-         "ungroup", "summ_count", "summ_sum", "slice", "slice0", "alias", "alias_keep")  # fmt: skip
+         "ungroup", "summ_count", "summ_sum", "slice", "slice0", "alias", "alias_keep", "rename_swap", "rename_swap_rev", "rename_chain", "rename_chain_rev")  # fmt: skip
 BINARY = ("join_cross_l", "join_cross_r", "join_inner_l", "join_inner_r", "join_left_l", "join_left_r", "join_full_l", "join_full_r", "union_l", "union_r")
 
 
@@ -772,6 +793,12 @@ class Explorer:
         if wrong:
             self.add("identity", kind, "column object filed under another identity", seq,
                      f"after {' >> '.join(seq)} the scope files column objects under identities they do not carry: {wrong[:3]}")  # fmt: skip
+        if kind == "alias_keep":
+            lost = [d for d in (parent.attrs.get("derived_from") or ()) if d not in (sim.cache.attrs.get("derived_from") or ())]
+            if lost:
+                self.add("identity", kind, "derivation forgotten although the identities are kept", seq,
+                         f"after {' >> '.join(seq)} (alias with keep_col_refs=True: same column identities) the table no longer counts as derived from {len(lost)} of its "
+                         "source node(s): a join with a table of the same origin is not refused although both sides share column identities")  # fmt: skip
         if kind == "alias":
             stale = [u for u, c in cols_now.items() if isinstance(c, Obj) and c.attrs.get("_ast") is not node]
             if stale:
@@ -816,6 +843,19 @@ class Explorer:
             want = hazard(sim.ref) if self.backend != "polars" else None
             got = self.guard(sim, node, s2)
             self.judge(sim, kind, s2, want, got)
+            if (want or got) and self.backend != "polars":
+                # an alias directly before the verb makes it fit (on a copy: the exploration itself continues without it)
+                s3 = Sim.__new__(Sim)
+                s3.w, s3.backend, s3.src, s3.cache, s3.node, s3.ref = sim.w, sim.backend, sim.src, sim.cache, sim.node, sim.ref.copy()
+                try:
+                    s3.insert_marker()
+                    node3, hazard3 = s3.build_binary(kind)
+                    got3 = self.guard(s3, node3, s2)
+                    if got3 is not None and hazard3(s3.ref) is None:
+                        self.add("alias-not-enough", kind, str(got3), s2,
+                                 f"after a subquery (alias directly before the verb) the guard still refuses `{kind}`: {got3}")  # fmt: skip
+                except PyRaise:
+                    pass
 
     def signature(self, sim: Sim):
         """abstract state: the reference state and every field of the interpreted cache, with identities and generated names
